@@ -37,6 +37,61 @@ class Ctx:
         self.viol_of = {}        # id(ret node) -> (ret node, [obligations], rule)
         self.sites = {}          # (rule, fn, kind, line) -> [bindings checked, first failing binding or None]
         self.site_obs = {}       # the same key -> the obligations themselves
+        # every inherent method a rule looks up is also checked for trait methods of the same name that method
+        # resolution would prefer (see check_competitors)
+        if not getattr(pdb, "_inherent_wrapped", False):
+            orig_inherent = pdb.inherent
+            pdb._inherent_orig = orig_inherent
+            pdb._inherent_wrapped = True
+        ctx_ = self
+
+        def inherent_(self_ty, name, _orig=pdb._inherent_orig):
+            key = _orig(self_ty, name)
+            ctx_.check_competitors(self_ty, name, key)
+            return key
+        pdb.inherent = inherent_
+
+    def check_competitors(self, self_ty, name, ikey):
+        """An inherent method with a reference receiver (`&self` / `&mut self`) loses method resolution to a trait
+        method of the same name whose receiver is tried earlier (by value before `&`, `&` before `&mut`), for every
+        caller that has the trait in scope.  Such a trait method on the type (or from a blanket impl) means the
+        observable `x.name(..)` may not run the function the rule analyses."""
+        memo = self.cache.setdefault("competitors", {})
+        if (self_ty, name) in memo:
+            return
+        memo[(self_ty, name)] = True
+        import re as _re
+
+        def recv_rank(key):
+            mir = self.pdb.fn(key)["mir"]
+            if mir["arg_count"] < 1:
+                return None
+            t1 = self.pdb.ty(mir["locals"][1])
+            if t1["k"] != "ref":
+                return 0
+            return 2 if t1.get("mut") else 1
+        try:
+            mine = recv_rank(ikey)
+        except Exception:
+            return
+        if mine in (None, 0):
+            return          # an associated function, or a by-value receiver: inherent wins
+        for im in self.pdb.impls:
+            if not im.get("trait") or name not in im["items"]:
+                continue
+            st_ = im["self_ty"]
+            blanket = bool(_re.match(r"^[A-Z][A-Za-z0-9]*$", st_)) and st_ not in self.pdb.adts
+            if st_ != self_ty and not blanket:
+                continue
+            try:
+                theirs = recv_rank(im["items"][name])
+            except Exception:
+                theirs = 0
+            if theirs is not None and theirs < mine:
+                self.rep.ob("%s.shadowing" % self.rep.prop, "%s::%s" % (short(self_ty), name), False,
+                            "the %s method `%s` (impl for %s) takes its receiver %s and is preferred by method resolution over the inherent %s::%s" % (
+                                im["trait"], name, st_, "by value" if theirs == 0 else "by shared reference", short(self_ty), name), self.pdb.where(im["items"][name]))
+                return
 
     # ---- lookups ---------------------------------------------------------------------------
     def method(self, self_ty, name, trait=None):
@@ -622,7 +677,7 @@ def eval_bit(b, asg):
     raise Uncertified("imprecise bit")
 
 
-def panic_free(ctx, rule, sm, envs, exhaustive, what=""):
+def panic_free(ctx, rule, sm, envs, exhaustive, what="", in_domain=None):
     """Every panic site of the summary holds: shown by the bound prover for arbitrary inputs, or folded over `envs`
     (bindings of the summary's atoms).  exhaustive=True says envs cover the property's whole domain for this function
     (no failing binding = discharged); otherwise a site that is neither proven nor refuted is reported fail-closed."""
@@ -644,8 +699,9 @@ def panic_free(ctx, rule, sm, envs, exhaustive, what=""):
         if dec is True:
             rep.ob(rule, inst, True)
             continue
-        if dec is False and not exhaustive:
-            # (with exhaustive=True the bindings are the property's whole domain: a failure outside them is not one)
+        if dec is False and (not exhaustive or (in_domain is not None and how and in_domain(how))):
+            # (with exhaustive=True the bindings are the property's whole domain: a failure outside them is not one —
+            # unless the caller can tell that the exact counterexample lies inside the domain)
             allok = False
             rep.ob(rule, inst, False, "panic site (%s, line %s) in %s is reached and fails for %s" % (o.kind, o.line, short(o.fn), describe_env(how)), where)
             continue
